@@ -224,8 +224,12 @@ def save_structure(ctx, R="R-C17-save-guard"):
         q = prog.qualify(f.module, c.func, f)
         if q:
             return {q: None}
+        ie = None
         if isinstance(c.func, ast.Name) and len(defs.get(c.func.id, ())) == 1 and isinstance(defs[c.func.id][0], ast.IfExp):
             ie = defs[c.func.id][0]
+        elif isinstance(c.func, ast.IfExp):
+            ie = c.func
+        if ie is not None:
             qa, qb = prog.qualify(f.module, ie.body, f), prog.qualify(f.module, ie.orelse, f)
             if qa and qb:
                 return {qa: (astq.text(ie.test), True), qb: (astq.text(ie.test), False)}
